@@ -62,6 +62,9 @@ class Monitor:
             # are in force by then
             evs.append(["probe", [1, 255, 3, 0, 22, "1500"]])
             evs.append(["probe", [1, 255, 3, 0, 32, "500"]])
+            # the gateway node itself announces sleep (a smart-sleep node acting as gateway, or a restored flag)
+            evs.append(["probe", [0, 255, 3, 0, 22, "1500"]])
+            evs.append(["probe", [0, 255, 3, 0, 32, "500"]])
             evs.append(["send", [1, 255, 3, 0, 13, ""]])
             evs.append(["send", [1, 255, 3, 0, 32, "x"]])
             evs.append(["send", [1, 3, 1, 0, 2, "v"]])
@@ -210,10 +213,11 @@ def entry_case(job) -> list:
 
     stored, reports = job[0], job[1]
     via = job[2] if len(job) > 2 else "reply"
+    leave = job[3] if len(job) > 3 else None
     viols = []
 
     def bad(k, what):
-        viols.append((f"C05|entry-{k}", f"persistence file with gateway node version {stored!r}, then reports {reports} (by {'version reply' if via == 'reply' else 'gateway presentation'}): {what}", {"entry": [stored, reports, via]}))
+        viols.append((f"C05|entry-{k}", f"persistence file with gateway node version {stored!r}, then reports {reports} (by {'version reply' if via == 'reply' else 'gateway presentation'}): {what}", {"entry": [stored, reports, via, leave]}))
 
     nodes = {1: Node(1, 17, "2.0", children={3: Child(3, 3)})}
     if stored is not None:
@@ -248,12 +252,37 @@ def entry_case(job) -> list:
                 if exists == unsupported:
                     bad(f"type-gate|3/{t}", f"after {'entry' if r is None else 'report ' + repr(r)} type {t} ({'exists' if exists else 'does not exist'} in {eff}) gave {out.describe()}")
     finally:
-        pers.run(lambda: gw.__aexit__(None, None, None), vfs)
+        if leave is None:
+            pers.run(lambda: gw.__aexit__(None, None, None), vfs)
+    if leave is not None:
+        # the context is left through an exception; the same gateway object is used again afterwards
+        from aiomysensors.exceptions import TransportError, TransportFailedError, TransportReadError
+
+        exc = {"failed": TransportFailedError("lost"), "transport": TransportError("t"), "read": TransportReadError("r"), "runtime": RuntimeError("app"), "none": None}[leave]
+        pers.run(lambda: gw.__aexit__(type(exc) if exc else None, exc, None), vfs)
+        s._agen = None
+        invariant(gw, lambda k, w: bad(k, f"after leaving the context through {leave}: {w}"))
+        active = getattr(gw.protocol, "VERSION", None)
+        if active != eff:
+            bad("wrong-rules", f"after leaving the context through {leave} the active rules are {active}, expected {eff}")
+        kind, val = pers.run(gw.__aenter__, vfs)
+        if kind == "ok":
+            for t in (15, 22, 29):
+                out = s.line(f"1;255;3;0;{t};0")
+                exists = R.type_exists(eff, 3, t)
+                unsupported = out.kind == "raise" and isinstance(out.exc, UnsupportedMessageError)
+                if exists == unsupported:
+                    bad(f"type-gate|3/{t}", f"after leaving the context through {leave} and entering again, type {t} ({'exists' if exists else 'does not exist'} in {eff}) gave {out.describe()}")
+                if out.writes and any(w.startswith("0;255;3;0;2;") for w in out.writes) and gw.protocol_version is not None and eff != "1.4":
+                    bad("version-asked-again", f"after leaving through {leave} and entering again the library asks for the version although {eff} was reported")
+            invariant(gw, lambda k, w: bad(k, f"after re-entering (left through {leave}): {w}"))
+            pers.run(lambda: gw.__aexit__(None, None, None), vfs)
     return viols
 
 
 def run(ctx: core.Ctx) -> core.Report:
     ejobs = [(st, rp, via) for via in ("reply", "gwpres") for st in (None, "1.4", "1.5.0", "2.0.0", "2.2.0", "2.3.1", "junk", "") for rp in ([], ["2.1.1"], ["junk"], ["2.2.0", "junk"], ["1.5.0", "2.0.0"], [st], [st, "2.1.1", st]) if None not in rp and not (via == "gwpres" and not rp)]
+    ejobs += [(st, rp, "reply", lv) for st in (None, "2.2.0") for rp in ([], ["2.2.0"], ["1.5.0"], ["2.1.1", "junk"]) for lv in ("failed", "transport", "read", "runtime", "none")]
     eres = core.pmap(entry_case, ejobs, ctx.workers)
     jobs = [("select", v) for v in version_grid(ctx.quick)]
     for v in R.VERSIONS:
@@ -281,7 +310,7 @@ def run(ctx: core.Ctx) -> core.Report:
         "grid_cases": len(jobs),
         "context_entry_cases": len(ejobs),
         "distinct_nontrivial_transitions": res["nontrivial_transitions"],
-        "rule": "(a) every version string of the grid through the setter, a version reply and a gateway presentation; (c) every internal type -1..40 and stream type -1..8 per version; (b) all histories of version reports mixed with traffic and type probes to the stated depth; (b') the same with wake announcements and application commands parked for a sleeping node across version changes; (d) gateways entering their context over persistence files with 8 stored gateway-node versions x 7 report sequences (the stored string itself included) x reported by version reply / by gateway presentation",
+        "rule": "(a) every version string of the grid through the setter, a version reply and a gateway presentation; (c) every internal type -1..40 and stream type -1..8 per version; (b) all histories of version reports mixed with traffic and type probes to the stated depth; (b') the same with wake announcements and application commands parked for a sleeping node across version changes; (d) gateways entering their context over persistence files with 8 stored gateway-node versions x 7 report sequences (the stored string itself included) x reported by version reply / by gateway presentation, and contexts left through a transport-failed / transport / read / application error and entered again",
         "bounds": {"depth": depth, "version_strings": len(version_grid(ctx.quick)), "per_cfg": res["per_cfg"]},
         "samples": ctx.pick(res["samples"], 2) + [{"grid": jobs[7]}, {"grid": jobs[-3]}],
     }
